@@ -153,7 +153,9 @@ def main():
           for pid in ALL if pid not in CHECKS]
     man = {
         'version': 1,
-        'setup_cmd': '/venv/bin/pip install --no-index --find-links /opt/veriftools/wheels hypothesis',
+        'setup_cmd': '/venv/bin/pip install --no-index --find-links /opt/veriftools/wheels hypothesis && '
+                     '(/venv/bin/pip install --no-index --find-links /opt/veriftools/wheels --target .deps atheris || '
+                     'echo "atheris not installed: the coverage-guided stage of the thorough tier will be skipped")',
         'hooks': {
             'guard': 'PGELSS_SCIKIT_TT_VERIF',
             'enable': 'no source hooks are needed: ./check runs the working tree of /repo directly (PYTHONPATH=/repo, fresh '
@@ -165,11 +167,15 @@ def main():
         },
         'engines': [{'name': 'vt', 'path': 'vt/', 'serves_properties': sorted(CHECKS),
                      'kind_free_text': 'Hypothesis-driven property-based testing framework (vt/run.py runner, vt/dense.py '
-                                       'independent oracles, vt/props/cNN.py per-property generators and bodies)'}],
+                                       'independent oracles, vt/props/cNN.py per-property generators and bodies); the thorough '
+                                       'tier adds coverage-guided campaigns (vt/fuzz.py: atheris/libFuzzer driving the same '
+                                       'strategies and bodies through hypothesis fuzz_one_input, failures shrunk by Hypothesis)'}],
         'checks': checks,
         'not_applicable': na,
         'notes': 'All checks: exit 0 = held on everything explored, exit 1 + VIOLATION line = violation with replay file, exit 2 = '
-                 'harness error. VERIF_SEED selects the Hypothesis seeds; VERIF_REPO (default /repo) selects the tree.',
+                 'harness error. VERIF_SEED selects the Hypothesis seeds; VERIF_REPO (default /repo) selects the tree. '
+                 'Thorough tier = 16 Hypothesis shards per sub-check followed by 4 atheris campaigns per sub-check (VERIF_FUZZ=0 switches '
+                 'the second stage off; it is skipped with a note in the evidence when atheris cannot be imported).',
     }
     with open(os.path.join(HERE, 'MANIFEST.json'), 'w') as f:
         json.dump(man, f, indent=1)
